@@ -57,6 +57,11 @@ def gen_case(rng, ci, quick):
         else:                  # as long as the body limit allows
             line = "PRIVMSG %s" % chan + " q" * 300 + " :" + "w" * rng.randint(1000, 1400) + tail
         b = c10.body(line, fresh())
+        if rng.random() < 0.12:
+            # a body that is not valid UTF-8 (raw bytes inside the JSON string): the decoder substitutes U+FFFD, so what is
+            # committed to the log is well-formed text all the same (hypothesis of C15_outputs_utf8 and of C03_marshal_total)
+            raw = rng.choice([b"\xff", b"\xc3", b"\xf0\x9f\x98", b"\xed\xa0\x80", b"\xc0\xaf", b"\x80\x80"])
+            b = ('{"Data":"PRIVMSG %s :bytes ' % chan).encode() + raw + b' end' + raw + ('","ClientMessageId":%d}' % fresh()).encode()
         ops += ["P:%d:%s" % (k, hx(b)), "Y"]
         if rng.random() < 0.2:
             ops += ["T:%d" % k]
@@ -129,6 +134,11 @@ def monitor(ops, obs):
                 data = unhx(ent[5])
                 if any(c in data for c in (b"\r", b"\n", b"\x00")):
                     fails.append(("c15:api:entry-not-sanitised", "the entry committed for %s carries CR/LF/NUL: %r" % (tok[:60], data[:120])))
+                try:
+                    data.decode("utf-8")
+                except UnicodeDecodeError:
+                    fails.append(("c15:api:entry-not-utf8", "the entry committed for %s is not well-formed UTF-8: %r (the theorems about serialisation "
+                                  "and delivered length assume that the API only commits well-formed text)" % (tok[:60], data[:120])))
     return fails, lines_seen
 
 
